@@ -26,10 +26,11 @@ def _angs(rng, unit, n=3):
 
 
 def nonparallel_pair(rng):
-    """o, a with lengths in [1e-3, 1e6] and sin(angle between) >= 1e-3"""
+    """o, a with lengths in [1e-3, 1e6] and sin(angle between) >= 4e-7 (mostly >= 1e-3)"""
     a = gen.axis(rng)
     for _ in range(100):
-        phi = gen.logu(rng, 2e-3, math.pi / 2) if rng.random() < 0.5 else rng.uniform(2e-3, math.pi - 2e-3)
+        r_ = rng.random()
+        phi = gen.logu(rng, 2e-3, math.pi / 2) if r_ < 0.45 else gen.logu(rng, 2e-6, 2e-3) if r_ < 0.55 else rng.uniform(2e-3, math.pi - 2e-3)
         # rotate unit(a) by phi about a perpendicular direction
         ua = a / np.linalg.norm(a)
         p = np.cross(ua, gen.unit_axis(rng))
@@ -37,8 +38,12 @@ def nonparallel_pair(rng):
             continue
         p /= np.linalg.norm(p)
         o = (math.cos(phi) * ua + math.sin(phi) * p) * (1.0 if rng.random() < 0.3 else gen.logu(rng, 1e-3, 1e6))
+        if r_ >= 0.45 and r_ < 0.5:      # corner of the stated range: both vectors as short as allowed and nearly parallel
+            phi = gen.logu(rng, 5e-7, 1e-5)
+            a = ua * 1e-3 * (1 + rng.random())
+            o = (math.cos(phi) * ua + math.sin(phi) * p) * 1e-3 * (1 + rng.random())
         s = np.linalg.norm(np.cross(o, a)) / (np.linalg.norm(o) * np.linalg.norm(a))
-        if s >= 1.5e-3:
+        if s >= 4e-7:
             return o, a
     raise RuntimeError
 
